@@ -132,7 +132,11 @@ func c19Eval(c *ctx, cs c19Case) {
 	}
 }
 
-var c19Seps = []string{"", " ", "\n", "\r\n", "\t\n  ", " // c\n", "\n// comment line\n", "  \t", "\n\n\n", " //x\r\n\t"}
+var c19Seps = []string{"", " ", "\n", "\r\n", "\t\n  ", " // c\n", "\n// comment line\n", "  \t", "\n\n\n", " //x\r\n\t",
+	// a comment runs to the line feed whatever it contains: message-like text after a lone CR, form feed, vertical tab,
+	// NEL, U+2028/U+2029, quotes, brackets, terminators
+	" // note\rS9F9 H->E Ghost .\n", "// see\rbelow\n", " //\r.\n", "\n// a\r\r<L>\n", " // x\fS9F9 W .\n", " // x\vS9F9 W .\n",
+	" // x\u0085S9F9 W .\n", " // x\u2028S9F9 W .\u2029 <L> .\n", " // \" unbalanced quote . S9F9 W .\n", " // ' . > < [ ] S9F9\r\n", " //// . //\n"}
 
 func runC19(c *ctx) {
 	c.Rule = "sequences of 2-4 accepted texts (each 1-2 messages in varied literal forms and layouts, ending in the terminator optionally followed by blanks or line-terminated comments) joined by every separator the grammar allows after a terminator (nothing, blanks, line breaks, CRLF, comments); deliberately reused variable names, ellipses in several parts, missing directions (warnings), item-less messages followed by messages that start with every header token kind. Oracle: the concatenation is accepted, its messages equal the concatenation of the messages of the parts parsed alone (all observers, Variables() verbatim), its warnings equal the parts' warnings shifted by each part's start position. non-trivial = at least two parts that share a variable name or both contain an ellipsis; distinct by text"
